@@ -1,5 +1,6 @@
 import FqModel.Proto
 import FqModel.CtxStack
+import FqModel.CtxReadSeeker
 /-! driver for C20
 
   `seq|interp [@note]* <op>;<op>;…` TAB `<obs>;<obs>;…`
@@ -13,6 +14,13 @@ import FqModel.CtxStack
       the machine model; `w = ¬e`; a panic only for a second Stop), then model (`Variant.fixed`) = impl.
   `lin [@note]* <events>` TAB `-`
       a recorded two-thread history, see `linVerdict`.
+  `rs <closer 0|1> <schedule>` TAB `<ev>,<ev>,…|max=<n>|closes=<n>`
+      a harness schedule driven through the real ctxreadseeker with an instrumented underlying reader;
+      ev = `c:r|c:s|c:c` (Reader.Read/Seek/Close called) | `x` (cancel) | `ok` | `er` (call returned nil / ctx error)
+           | `Br|Bs|Bc` / `Er|Es|Ec` (underlying Read/Seek/Close entered / returned) | `T:<what>` (a wait timed out);
+      max = the largest number of operations in flight on the underlying reader (atomic counter).
+      verdict: the monitor `CtxRS.Mon.ok` over the recorded events (PROPFAIL), then the recorded sequence
+      must be a trace of the model `CtxRS` (`accepts .fixed`), else DIVERGE.
 -/
 open FqModel FqModel.CtxStack FqModel.Proto
 
@@ -353,11 +361,48 @@ def e2eLine (obs : String) : String :=
     | _, _, _, _ => "BADOP obs"
   | _ => "BADOP obs"
 
+
+/-! ### rs: ctxreadseeker protocol -/
+
+def parseRsEv (w : String) : Option CtxRS.Ev :=
+  match w with
+  | "c:r" => some (.call .read) | "c:s" => some (.call .seek) | "c:c" => some (.call .close)
+  | "x" => some .cancel | "ok" => some (.ret true) | "er" => some (.ret false)
+  | "Br" => some (.b .read) | "Bs" => some (.b .seek) | "Bc" => some (.b .close)
+  | "Er" => some (.e .read) | "Es" => some (.e .seek) | "Ec" => some (.e .close)
+  | _ => none
+
+def rsLine (closer : String) (obs : String) : String :=
+  match obs.splitOn "|" with
+  | [tr, mx, cl] =>
+    match kv "max=" mx, kv "closes=" cl with
+    | some mx, some cl =>
+      let ws := if tr == "-" then [] else tr.splitOn ","
+      match ws.find? (fun w => w.startsWith "T:") with
+      | some t => s!"PROPFAIL a wait of the schedule timed out ({t}): a call did not come back / an expected event did not occur"
+      | none =>
+      match ws.mapM parseRsEv with
+      | none => "BADOP events"
+      | some evs =>
+        let m := CtxRS.monOf evs
+        if closer != "0" && closer != "1" then "BADOP closer"
+        else if mx > 1 then s!"PROPFAIL {mx} operations on the underlying reader in flight at once (Close/Read/Seek not exclusive)"
+        else if m.overlap then "PROPFAIL an operation on the underlying reader began while another was in progress"
+        else if m.bad then "BADOP end without begin"
+        else if !m.ok then s!"PROPFAIL underlying Close called {m.closes} times for {m.callsClose} Reader.Close calls"
+        else if cl < m.closes then s!"BADOP closes={cl} but {m.closes} Bc events"
+        else match CtxRS.accepts .fixed (closer == "1") evs with
+          | some i => s!"DIVERGE model=event {i} ({ws.getD i "?"}) is not possible in the model after the events before it"
+          | none => "OK"
+    | _, _ => "BADOP obs"
+  | _ => "BADOP obs"
+
 def stepC20 (op obs : String) : String :=
   match stripNotes (words op) with
   | ["seq", t] => seqLine t obs
   | ["interp", t] => seqLine t obs
   | ["lin", t] => linLine t
+  | ["rs", c, _] => rsLine c obs
   | ["copy", m, wr, _, _, k] =>
     match kv "k=" k with
     | some k => if wr == "flat" || wr == "nest" then copyLine m wr k obs else "BADOP wr"
